@@ -12,13 +12,17 @@ for f in sorted(glob.glob("/verif/seeded/*/meta.json")):
         kinds.append(f"{p} ({'failing input' if (w.get('kind') == 'failing-input') else 'no-failing-input-found'})")
     first = (m.get("needs") or "").strip().split("\n")
     summary = next((l.strip("# *-").strip() for l in first if len(l.strip()) > 20), "")[:140]
-    rows.append(f"| {m['id']} | {m['property']} | {summary} | {'yes' if m.get('confirmed') else 'pending'} | {', '.join(kinds) if kinds else 'MISSED'} |")
-print("| id | property | change | confirmed | caught by |\n|---|---|---|---|---|")
+    sp = os.path.join(os.path.dirname(f), "seeds.json")
+    sd = json.load(open(sp)) if os.path.exists(sp) else {}
+    seeds = " ".join(f"{k}:{'F' if 'failing input' in v else 'N' if 'no-failing' in v else 'MISS'}" for k, v in sorted(sd.items())) or "-"
+    rows.append(f"| {m['id']} | {m['property']} | {summary} | {'yes' if m.get('confirmed') else 'pending'} | {', '.join(kinds) if kinds else 'MISSED'} | {seeds} |")
+print("| id | property | change | confirmed | caught by (last run) | seeds 0/1/2 (F = failing input, N = no-failing-input-found) |\n|---|---|---|---|---|---|")
 print("\n".join(rows))
 import sys
 if "--write" in sys.argv:
     p = "/verif/DESIGN.md"
     s = open(p).read()
     a, b = s.index("<!-- SEEDED-TABLE-START -->"), s.index("<!-- SEEDED-TABLE-END -->")
-    tab = "| id | property | change | confirmed | caught by |\n|---|---|---|---|---|\n" + "\n".join(rows) + "\n"
+    tab = ("| id | property | change | confirmed | caught by (last run) | seeds 0/1/2 (F = failing input, N = no-failing-input-found) |\n"
+           "|---|---|---|---|---|---|\n" + "\n".join(rows) + "\n")
     open(p, "w").write(s[:a] + "<!-- SEEDED-TABLE-START -->\n" + tab + s[b:])
